@@ -27,7 +27,7 @@ func init() {
 			"the caller does not mutate slices passed to New and does not write through *string pointers handed out by views/callbacks; Append and Rolling are outside the property's operation list",
 			"sharing of index arrays is measured through the verif hook; without it non-triviality is judged by history length only",
 		},
-		Stages:  stages(250, 6000, 200, 0),
+		Stages:  stages(2500, 40000, 300, 0),
 		RunCase: runC01,
 	})
 }
